@@ -9,7 +9,10 @@ import z3
 from .symfloat import F32, F64, RNE
 
 
-class RVUnsupported(BaseException):
+from .symx import Unsupported
+
+
+class RVUnsupported(Unsupported):
     pass
 
 
@@ -53,6 +56,7 @@ class Machine:
         self.defined = z3.BoolVal(True)
         self.touched_x = set()
         self.touched_f = set()
+        self.env = {}  # SSA values living in unallocated registers: id(value) -> term
 
     def rx(self, name):
         name = canon(name)
@@ -89,16 +93,32 @@ class Machine:
     def is_float_reg(self, t):
         return type(t).__name__ == "FloatRegisterType"
 
+    def _name(self, t):
+        n = getattr(t, "register_name", None)
+        name = n.data if hasattr(n, "data") else (str(n) if n is not None else "")
+        return name
+
     def read(self, v):
         t = v.type
-        return self.rf(reg_name(t)) if self.is_float_reg(t) else self.rx(reg_name(t))
+        name = self._name(t)
+        if name == "" or name.startswith("j_") or name.startswith("fj_"):
+            # unallocated (or infinite-pool) register: the SSA value itself carries the data
+            if id(v) not in self.env:
+                w = 64 if self.is_float_reg(t) else self.xlen
+                self.env[id(v)] = z3.BitVec(f"{self.prefix}_ssa{len(self.env)}", w)
+            return self.env[id(v)]
+        return self.rf(name) if self.is_float_reg(t) else self.rx(name)
 
     def write(self, v, val):
         t = v.type
+        name = self._name(t)
+        if name == "" or name.startswith("j_") or name.startswith("fj_"):
+            self.env[id(v)] = val
+            return
         if self.is_float_reg(t):
-            self.wf(reg_name(t), val)
+            self.wf(name, val)
         else:
-            self.wx(reg_name(t), val)
+            self.wx(name, val)
 
     # memory (little endian)
     def load(self, addr, nbytes):
@@ -276,6 +296,21 @@ def exec_op(m: Machine, op):
         addr = m.read(ops[0]) + _imm_term(m, imm_of(op))
         v = m.load(addr, n)
         m.write(res[0], nanbox(v) if n == 4 else v)
+        return None
+    if mn == "parallel_mov":
+        vals = [m.read(o) for o in ops]
+        for r_, v in zip(res, vals):
+            m.write(r_, v)
+        return None
+    if op.name == "builtin.unrealized_conversion_cast" and len(ops) == 1 and len(res) == 1:
+        # value-preserving view change between a register and its builtin type
+        v = m.read(ops[0]) if hasattr(ops[0].type, "register_name") else m.env.get(id(ops[0]))
+        if v is None:
+            raise RVUnsupported("cast of an unknown value")
+        if hasattr(res[0].type, "register_name"):
+            m.write(res[0], v)
+        else:
+            m.env[id(res[0])] = v
         return None
     if mn == "ret":
         return ("ret",)
